@@ -45,6 +45,11 @@ def run(tier):
     c20._b_keyed_state(Relabel(chk, {"C20.b": "C09.a-cache"}), c20._sites(), only_classes={"_CenterManifoldDynamicsService"})
     c20._e_invalidation(Relabel(chk, {"C20.e": "C09.a-cache"}), c20._sites(), only_classes={"_CenterManifoldDynamicsService"})
     c20._e_lazy_slots(Relabel(chk, {"C20.e": "C09.a-cache"}), only_classes={"_CenterManifoldDynamicsService"})
+    # ... and on every parameter their factory reads, whole (a map cached under a rounded energy is served for another level)
+    c20._b_key_params(Relabel(chk, {"C20.b": "C09.a-cache"}), [x for x in c20._sites() if x.cls.name == "_CenterManifoldDynamicsService"])
+    # the partial-normal-form series the reduction uses sit in their own slot (the full normal form's series must not replace them)
+    from . import c18
+    c18.generating_function_slots(Relabel(chk, {"C18.b": "C09.a-slots"}))
     _a_chains(chk)
     _a_series(chk)
     _a_configure(chk)
@@ -327,13 +332,16 @@ def _d_restriction(chk):
     pm_, pc_ = ri.find_def(COL, "L1Point")
     point = SymObj(ClassRef(pm_, pc_), {}, "L1")
     ip = Interp(decide=pr.generic_decide, max_depth=30)
+    full = sp.Poly(sp.expand(pr.list_to_expr(poly, clmo)), *X)     # the source polynomial BEFORE the call
     try:
         out = ip.call_function(TR, "_restrict_poly_to_center_manifold", [point, poly, clmo, sp.Integer(-1)])
     except OutsideFragment as exc:
         raise AnalysisError(f"_restrict_poly_to_center_manifold outside fragment: {exc}")
     got = sp.expand(pr.list_to_expr(out, clmo))
-    full = sp.Poly(sp.expand(pr.list_to_expr(poly, clmo)), *X)
     want = sum((cf * pr.monomial(m) for m, cf in full.terms() if m[0] == 0 and m[3] == 0), sp.Integer(0))
-    chk.check(sp.expand(got - want) == 0 and sp.expand(pr.list_to_expr(poly, clmo) - full.as_expr()) == 0, "C09.d", f"{TR}::_restrict_poly_to_center_manifold",
-              "restriction does not zero exactly the monomials with k_q1 != 0 or k_p1 != 0 (or it modifies its input)", sample="keep iff k_q1 = k_p1 = 0; input untouched")
+    chk.check(sp.expand(got - want) == 0, "C09.d", f"{TR}::_restrict_poly_to_center_manifold",
+              "restriction does not zero exactly the monomials with k_q1 != 0 or k_p1 != 0", sample="keep iff k_q1 = k_p1 = 0")
+    chk.check(sp.expand(pr.list_to_expr(poly, clmo) - full.as_expr()) == 0, "C09.d", f"{TR}::_restrict_poly_to_center_manifold[input]",
+              "the restriction zeroes coefficients of its INPUT blocks in place: the cached source Hamiltonian (complex_partial_normal) loses its hyperbolic terms once a "
+              "centre-manifold form has been requested", sample="input polynomial unchanged after the call")
     chk.count("functions partially evaluated")
